@@ -5,6 +5,7 @@
 //   - in P fresh PROCESSES (this binary re-executes itself; every process has new map seeds) ("process")
 //   - after k other interpreters were created and used first  ("after")
 //   - inside a batch process that runs all programs in a shuffled order ("batch")
+//
 // Observables: printed value, captured stdout, error text (pointer values and goroutine ids
 // stripped).  A difference is a failure of the property; it is written with the program and
 // the two observations to the diffs file, and summarised in the cases file.
@@ -48,20 +49,25 @@ type Rec struct {
 	Proc int    `json:"proc"`
 	Rep  int    `json:"rep"`
 	Obs  Obs    `json:"obs"`
+	Reg  string `json:"reg"` // fingerprint of the process-global type registry before the run
+	Sym  string `json:"sym"` // fingerprint of the symbol numbers of the registered type names
 }
 
 type Diff struct {
-	ID      string   `json:"id"`
-	Tags    []string `json:"tags"`
-	File    string   `json:"file,omitempty"`
-	Program string   `json:"program"`
-	Kind    string   `json:"kind"` // repeat | process | after | batch
-	WhereA  string   `json:"where_a"`
-	WhereB  string   `json:"where_b"`
-	A       Obs      `json:"a"`
-	B       Obs      `json:"b"`
-	Field   string   `json:"field"` // value | stdout | error (first differing)
-	NDist   int      `json:"distinct_observations"`
+	ID       string   `json:"id"`
+	Tags     []string `json:"tags"`
+	File     string   `json:"file,omitempty"`
+	Program  string   `json:"program"`
+	Kind     string   `json:"kind"` // repeat | process | after | batch
+	WhereA   string   `json:"where_a"`
+	WhereB   string   `json:"where_b"`
+	A        Obs      `json:"a"`
+	B        Obs      `json:"b"`
+	Field    string   `json:"field"` // value | stdout | error (first differing)
+	NDist    int      `json:"distinct_observations"`
+	RegDiff  bool     `json:"registry_differs_before_run"`
+	SymDiff  bool     `json:"type_symbol_numbers_differ_before_run"`
+	BSymDiff bool     `json:"builtin_symbol_numbers_differ_before_run"`
 }
 
 func repoDir() string {
@@ -96,6 +102,7 @@ func main() {
 	child := ""
 	var progsPath, resPath string
 	sel, nreps, order, procIdx := -1, 1, uint64(0), 0
+	focus := ""
 	for i := 0; i < len(args.Rest); i++ {
 		nx := func() string { i++; return args.Rest[i] }
 		switch args.Rest[i] {
@@ -113,13 +120,15 @@ func main() {
 			fmt.Sscan(nx(), &order)
 		case "--proc":
 			fmt.Sscan(nx(), &procIdx)
+		case "--focus":
+			focus = nx()
 		}
 	}
 	if child != "" {
 		runChild(child, progsPath, resPath, sel, nreps, order, procIdx)
 		return
 	}
-	driver(args)
+	driver(args, focus)
 }
 
 // ---------------------------------------------------------------- driver
@@ -132,13 +141,31 @@ type job struct {
 	order uint64
 }
 
-func driver(args lib.Args) {
+// focusMatch: tag "site:<file>:<func>" against a census site "<file>:<Receiver.Func>"
+func focusMatch(p Prog, focus string) bool {
+	i := strings.Index(focus, ":")
+	if i < 0 {
+		return false
+	}
+	file, fn := focus[:i], focus[i+1:]
+	if j := strings.LastIndex(fn, "."); j >= 0 {
+		fn = fn[j+1:]
+	}
+	for _, t := range p.Tags {
+		if t == "site:"+file+":"+fn {
+			return true
+		}
+	}
+	return false
+}
+
+func driver(args lib.Args, focus string) {
 	repo := repoDir()
 	rng := lib.NewRng(args.Seed)
 	cps, skipped := corpus(repo)
 	gen := generated(rng.Fork())
 	var progs []Prog
-	nproc, nrep, nafter, nbatch := 5, 3, 2, 3
+	nproc, nrep, nafter, nbatch, nfixed := 2, 3, 1, 2, 4
 	if args.Replay != "" {
 		b, err := os.ReadFile(args.Replay)
 		if err != nil {
@@ -152,10 +179,29 @@ func driver(args lib.Args) {
 			os.Exit(2)
 		}
 		progs = []Prog{{ID: "replay/" + d.ID, Src: d.Program, File: d.File, Tags: d.Tags}}
-		nproc, nrep, nafter, nbatch = 24, 3, 4, 0
+		nproc, nrep, nafter, nbatch, nfixed = 24, 3, 4, 0, 0
+	} else if focus != "" {
+		// a walk of this function is not covered by a theorem: search its triggers harder
+		for _, p := range gen {
+			if focusMatch(p, focus) {
+				progs = append(progs, p)
+			}
+		}
+		if len(progs) == 0 {
+			for _, p := range append(gen, cps...) {
+				if strings.Contains(focus, "hashutils") && !strings.Contains(p.Src, "hash") {
+					continue
+				}
+				progs = append(progs, p)
+			}
+		}
+		nproc, nrep, nafter, nbatch, nfixed = 12, 3, 1, 0, 0
+		if len(progs) > 30 {
+			nproc = 4
+		}
 	} else if args.Tier == "thorough" {
 		progs = append(gen, cps...)
-		nproc, nrep, nafter, nbatch = 20, 3, 4, 8
+		nproc, nrep, nafter, nbatch, nfixed = 20, 3, 4, 8, 12
 	} else {
 		// quick: every generated trigger + a seed-dependent slice of the corpus
 		progs = append(progs, gen...)
@@ -167,7 +213,7 @@ func driver(args lib.Args) {
 			j := rng.Intn(i + 1)
 			idx[i], idx[j] = idx[j], idx[i]
 		}
-		n := 14
+		n := 10
 		if n > len(idx) {
 			n = len(idx)
 		}
@@ -188,11 +234,22 @@ func driver(args lib.Args) {
 			jobs = append(jobs, job{"solo", s, p, nrep, 0})
 		}
 		for p := 0; p < nafter; p++ {
-			jobs = append(jobs, job{"after", s, p, 1, rng.U64()})
+			// quick tier: half of the programs run after interpreters that declared types, the
+			// other half after interpreters that did not (alternating with the seed); thorough: both
+			both := args.Tier == "thorough" || args.Replay != "" || focus != ""
+			if both || (s+int(args.Seed))%2 == 0 {
+				jobs = append(jobs, job{"after", s, p, 1, rng.U64()})
+			}
+			if both || (s+int(args.Seed))%2 == 1 {
+				jobs = append(jobs, job{"afterclean", s, p, 1, rng.U64()})
+			}
 		}
 	}
 	for p := 0; p < nbatch; p++ {
-		jobs = append(jobs, job{"batch", -1, p, 1, rng.U64()})
+		jobs = append(jobs, job{"batch", -1, p, 1, rng.U64() | 1})
+	}
+	for p := 0; p < nfixed; p++ {
+		jobs = append(jobs, job{"fixed", -1, p, 1, 0})
 	}
 	self, _ := os.Executable()
 	recs := make([][]Rec, len(jobs))
@@ -212,7 +269,7 @@ func driver(args lib.Args) {
 			cmd := exec.Command(self, "--child", j.mode, "--progs", progsPath, "--res", res,
 				"--sel", fmt.Sprint(j.sel), "--reps", fmt.Sprint(j.reps), "--order", fmt.Sprint(j.order), "--proc", fmt.Sprint(j.proc))
 			cmd.Dir = repo
-			cmd.Env = os.Environ()
+			cmd.Env = append(os.Environ(), "GOMAXPROCS=2")
 			done := make(chan error, 1)
 			if err := cmd.Start(); err != nil {
 				fails[ji] = "start: " + err.Error()
@@ -220,7 +277,7 @@ func driver(args lib.Args) {
 			}
 			go func() { done <- cmd.Wait() }()
 			lim := 60 * time.Second
-			if j.mode == "batch" {
+			if j.mode == "batch" || j.mode == "fixed" {
 				lim = 600 * time.Second
 			}
 			select {
@@ -292,33 +349,56 @@ func driver(args lib.Args) {
 		}
 		kinds := map[string]bool{}
 		if len(distinct) > 1 && !budget {
-			for _, r := range rs[1:] {
-				if r.Obs.key() == base.Obs.key() {
-					continue
+			soloFirst := map[int]Rec{}
+			var fixedFirst *Rec
+			for i, r := range rs {
+				if r.Mode == "solo" && r.Rep == 0 {
+					soloFirst[r.Proc] = r
 				}
-				kind := "process"
+				if r.Mode == "fixed" && fixedFirst == nil {
+					fixedFirst = &rs[i]
+				}
+			}
+			for _, r := range rs[1:] {
+				ref, kind := base, "process"
 				switch {
-				case r.Mode == "solo" && r.Proc == base.Proc:
-					kind = "repeat"
+				case r.Mode == "solo" && r.Rep > 0:
+					ref, kind = soloFirst[r.Proc], "repeat"
+				case r.Mode == "solo":
+					kind = "process"
 				case r.Mode == "after":
 					kind = "after"
+				case r.Mode == "afterclean":
+					kind = "afterclean"
+				case r.Mode == "fixed":
+					// fixed-order batches are compared with each other (same history, new map
+					// seeds) and the first of them with the solo run (history of other programs)
+					if r.Proc != fixedFirst.Proc {
+						ref, kind = *fixedFirst, "process"
+					} else {
+						kind = "batch"
+					}
 				case r.Mode == "batch":
 					kind = "batch"
 				}
-				if kinds[kind] {
+				if r.Obs.key() == ref.Obs.key() || kinds[kind] {
 					continue
 				}
 				kinds[kind] = true
 				field := "value"
-				if r.Obs.V == base.Obs.V {
+				if r.Obs.V == ref.Obs.V {
 					field = "stdout"
-					if r.Obs.O == base.Obs.O {
+					if r.Obs.O == ref.Obs.O {
 						field = "error"
 					}
 				}
 				diffs = append(diffs, Diff{ID: p.ID, Tags: p.Tags, File: p.File, Program: p.Src, Kind: kind,
-					WhereA: where(base), WhereB: where(r), A: base.Obs, B: r.Obs, Field: field, NDist: len(distinct)})
+					WhereA: where(ref), WhereB: where(r), A: ref.Obs, B: r.Obs, Field: field, NDist: len(distinct),
+					RegDiff: ref.Reg != r.Reg, SymDiff: half(ref.Sym, 0) != half(r.Sym, 0), BSymDiff: half(ref.Sym, 1) != half(r.Sym, 1)})
 			}
+		}
+		if os.Getenv("C20_SHOW") != "" {
+			fmt.Printf("%-32s V=%.150q O=%.100q E=%.200q\n", p.ID, base.Obs.V, base.Obs.O, base.Obs.E)
 		}
 		impl := "det"
 		if len(kinds) > 0 {
@@ -352,6 +432,8 @@ func driver(args lib.Args) {
 			}
 		}
 	}
+	out.Extra["alias_groups"] = aliasGroups()
+	out.Extra["registry_names"] = registryNames
 	out.Extra["programs"] = len(progs)
 	out.Extra["corpus_programs_available"] = len(cps)
 	out.Extra["corpus_skipped_nondeterministic_builtins"] = skipped
@@ -361,7 +443,7 @@ func driver(args lib.Args) {
 	out.Extra["child_failures"] = nf
 	out.Extra["child_failure_examples"] = failList
 	out.Extra["programs_with_differences"] = countIDs(diffs)
-	out.Extra["runs_per_program"] = fmt.Sprintf("%d fresh processes x %d in-process repeats + %d after-other-interpreters + %d shuffled batches", nproc, nrep, nafter, nbatch)
+	out.Extra["runs_per_program"] = fmt.Sprintf("%d fresh processes x %d in-process repeats + %d after-other-interpreters + %d shuffled batches + %d fixed-order batches", nproc, nrep, nafter, nbatch, nfixed)
 	out.Close(args.Stats)
 	fmt.Printf("c20: %d programs, %d processes, %d observations, %d differences, %d child failures\n", len(progs), len(jobs), total, len(diffs), nf)
 }
@@ -378,10 +460,20 @@ func modeRank(m string) int {
 	switch m {
 	case "solo":
 		return 0
-	case "after":
+	case "after", "afterclean":
 		return 1
+	case "fixed":
+		return 2
 	}
-	return 2
+	return 3
 }
 
 func where(r Rec) string { return fmt.Sprintf("%s process %d, run %d", r.Mode, r.Proc, r.Rep) }
+
+func half(s string, i int) string {
+	p := strings.SplitN(s, "/", 2)
+	if i < len(p) {
+		return p[i]
+	}
+	return ""
+}
